@@ -337,11 +337,14 @@ func constCondLint(c *Ctx, p *Program, pkgPats ...string) {
 		k, h = ignoredObservations(p, fn)
 		n += k
 		hits = append(hits, h...)
+		k, h = lowWordTests(p, fn)
+		n += k
+		hits = append(hits, h...)
 	}
 	if n == 0 {
 		return // the property's packages test no observer: nothing to claim
 	}
-	c.Rule(rule, "CONSTANT CONDITION (belief contradiction): no branch tests an observer (IsZero, IsOne, BitLen, Sign, Cmp, len, ...) whose outcome is already fixed on every path to it — the same observation of the same unchanged object compared with itself, a predicate repeated on an unchanged object, IsZero after IsOne held. One arm of such a branch is dead: the special case it was written for is never taken. And the result of every observer call is used (a predicate called on a line of its own is a test that was lost)", 0)
+	c.Rule(rule, "CONSTANT CONDITION (belief contradiction): no branch tests an observer (IsZero, IsOne, BitLen, Sign, Cmp, len, ...) whose outcome is already fixed on every path to it — the same observation of the same unchanged object compared with itself, a predicate repeated on an unchanged object, IsZero after IsOne held. One arm of such a branch is dead: the special case it was written for is never taken. And the result of every observer call is used (a predicate called on a line of its own is a test that was lost). A *big.Int is not tested through x.Uint64() / x.Int64() compared with a constant unless IsUint64 / IsInt64 / BitLen / Sign / Cmp of the same object was tested on the way (the low word of a multiple of 2^64 is zero)", 0)
 	c.Instance(rule, n)
 	reportFindings(c, p, rule, nil, hits, "")
 	c.Ob(rule, "-", "-", "observer-conditions-scanned", "-", true, "")
@@ -582,6 +585,84 @@ func rotatedWithoutTemp(p *Program, fn *ssa.Function) (int, []Finding) {
 			hits = append(hits, Finding{fn, c.in.Pos(), "rotation-through-temporary(" + fieldName(a.dst.X.Type(), a.dst.Field) + "," + fieldName(c.dst.X.Type(), c.dst.Field) + ")",
 				fmt.Sprintf("%s: %s is computed from %s and then %s is set from the new %s: the previous %s is overwritten before it is copied (a swap / rotation written without a temporary)",
 					funcKey(fn), fieldName(a.dst.X.Type(), a.dst.Field), fieldName(c.dst.X.Type(), c.dst.Field), fieldName(c.dst.X.Type(), c.dst.Field), fieldName(a.dst.X.Type(), a.dst.Field), fieldName(a.dst.X.Type(), a.dst.Field))})
+		}
+	}
+	return n, hits
+}
+
+// lowWordTests: a branch that tests a *big.Int through x.Uint64() / x.Int64() compared with a
+// constant looks at the low word only: unless x.IsUint64() / x.IsInt64() (or a BitLen / Sign /
+// Cmp test of the same object) holds on the way, every multiple of 2^64 passes for zero.
+func lowWordTests(p *Program, fn *ssa.Function) (int, []Finding) {
+	n := 0
+	var hits []Finding
+	for _, b := range fn.Blocks {
+		if len(b.Instrs) == 0 {
+			continue
+		}
+		iff, ok := b.Instrs[len(b.Instrs)-1].(*ssa.If)
+		if !ok {
+			continue
+		}
+		a := atomOf(iff.Cond)
+		if a.Kind != "cmp" {
+			continue
+		}
+		var call *ssa.Call
+		for _, side := range []ssa.Value{a.X, a.Y} {
+			if c, ok := stripConv(side).(*ssa.Call); ok && !c.Call.IsInvoke() {
+				if cl := calleeOf(&c.Call); cl.Pkg == "math/big" && cl.Recv == "Int" && (cl.Name == "Uint64" || cl.Name == "Int64") && len(c.Call.Args) == 1 {
+					call = c
+				}
+			}
+		}
+		if call == nil {
+			continue
+		}
+		if _, isConst := constInt(a.X); !isConst {
+			if _, isConst := constInt(a.Y); !isConst {
+				continue
+			}
+		}
+		n++
+		obj := call.Call.Args[0]
+		guarded := false
+		for d := b; d != nil && !guarded; d = d.Idom() {
+			id := d.Idom()
+			if id == nil {
+				break
+			}
+			piff, ok := id.Instrs[len(id.Instrs)-1].(*ssa.If)
+			if !ok || len(d.Preds) != 1 {
+				continue
+			}
+			// any observation of the same object on the way (IsUint64, IsInt64, BitLen, Sign, Cmp)
+			var obs []*ssa.Call
+			pa := atomOf(piff.Cond)
+			if pa.Kind == "call" {
+				obs = append(obs, pa.Call)
+			} else if pa.Kind == "cmp" {
+				for _, side := range []ssa.Value{pa.X, pa.Y} {
+					if c, ok := stripConv(side).(*ssa.Call); ok {
+						obs = append(obs, c)
+					}
+				}
+			}
+			for _, oc := range obs {
+				if oc.Call.IsInvoke() || len(oc.Call.Args) == 0 {
+					continue
+				}
+				switch calleeOf(&oc.Call).Name {
+				case "IsUint64", "IsInt64", "BitLen", "Sign", "Cmp", "CmpAbs":
+					if sameObject(oc.Call.Args[0], obj) {
+						guarded = true
+					}
+				}
+			}
+		}
+		if !guarded {
+			hits = append(hits, Finding{fn, call.Pos(), "low-word-test(" + descValue(obj, 0) + ")",
+				fmt.Sprintf("%s: the branch tests %s through its low 64 bits only (no IsUint64 / BitLen / Sign / Cmp of it on the way): every value that is a multiple of 2^64 passes for the constant it is compared with", funcKey(fn), descValue(obj, 0))})
 		}
 	}
 	return n, hits
